@@ -45,6 +45,10 @@ func init() {
 			{ID: "R11s", Floor: 1, Doc: "the index decoders accept what the encoders emit: equal neighbouring digests are legal (= R07n)", Run: ruleR07n},
 			{ID: "R11t", Floor: 1, Doc: "the selective writer's index has every section: a block is written once per session, matching the one-record-per-CID map (= R15a)", Run: ruleR15a},
 			{ID: "R11u", Floor: 2, Doc: "a record enters the session index only after its section was written, at the position held before the write (= R06a)", Run: ruleR06a},
+			{ID: "R11v", Floor: 1, Doc: "package index consults no registry of hash functions (multihash.Codes, Names, GetHasher, ValidCode): the multihash code is a bucket key, and every code the encoder writes the decoder reads", Run: ruleR11v},
+			{ID: "R11w", Floor: 3, Doc: "car index records, for every section it copies, the offset the section has in the output (= R19d)", Run: ruleR19d},
+			{ID: "R11x", Floor: 1, Doc: "the payload size StorageCar.Finalize hands to store.Finalize is read after the lock was taken", Run: ruleR11x},
+			{ID: "R11y", Floor: 1, Doc: "multiWidthIndex.Load builds one bucket per digest width: the groups it ranges over are keyed by an integer (the width), so no two groups address the same bucket", Run: ruleR11y},
 			{ID: "R11q", Floor: 1, Doc: "a decoded bucket has exactly as many records as the bytes read for it hold (= R09f)", Run: ruleR09f},
 		},
 	})
